@@ -36,6 +36,45 @@ pub fn chunk(ctx: &mut Ctx) {
     ctx.rule = "random chunk type (known/private/arbitrary bytes) x payload sizes biased to boundaries; encode compared byte-for-byte, \
                 then decode of encoding+suffix / truncation / single-byte mutation / garbage through both parsers; \
                 non-trivial = payload non-empty or input malformed; distinct by request line".into();
+    // entry parts (`EntryPart::from(raw entry)`, `Archive::add_entry_part`): declared length = returned count = bytes written,
+    // for parts whose chunk lists hold empty and tiny chunks of every kind (as a foreign writer or a re-cut may leave them)
+    for k in 0..(if ctx.thorough { 200 } else { 40 }) {
+        let mut body: Vec<([u8; 4], Vec<u8>)> = vec![(*b"FHED", vec![0, 0, 0, 0, 0, 0, b'p'])];
+        for j in 0..rng.gen_range(1..6) {
+            let t: [u8; 4] = *[b"FDAT", b"FDAT", b"fSIZ", b"myTy", b"FDAT"][rng.gen_range(0..5)];
+            let len = if (k + j) % 3 == 0 { 0 } else { rng.gen_range(0..9) };
+            body.push((t, if &t == b"fSIZ" { vec![1] } else { bytes(&mut rng, len) }));
+        }
+        body.push((*b"FEND", vec![]));
+        let mut arch = SIG.to_vec();
+        arch.extend(frame(b"AHED", &[0; 8]));
+        let want: usize = body.iter().map(|(_, d)| 12 + d.len()).sum();
+        for (t, d) in &body { arch.extend(frame(t, d)); }
+        arch.extend(frame(b"AEND", &[]));
+        let a2 = arch.clone();
+        let r = crate::util::catch(move || -> std::io::Result<(usize, usize, usize)> {
+            use libpna::{Archive, EntryPart};
+            let mut src = Archive::read_header(&a2[..])?;
+            let raw = src.raw_entries().next().ok_or_else(|| std::io::Error::other("no entry"))??;
+            let part = EntryPart::from(raw);
+            let declared = part.bytes_len();
+            let mut out = Archive::write_header(Vec::new())?;
+            let returned = out.add_entry_part(part)?;
+            let bytes = out.finalize()?;
+            Ok((declared, returned, bytes.len() - 8 - 20 - 12))
+        });
+        ctx.oracle_eval();
+        match r {
+            Ok(Ok((declared, returned, written))) => {
+                if declared != want || returned != written || declared != written {
+                    ctx.violation("C18", "an entry part's declared length, the count add_entry_part returns and the bytes it writes differ", json!({"chunks": body.iter().map(|(t, d)| format!("{}:{}", String::from_utf8_lossy(t), d.len())).collect::<Vec<_>>(), "declared": declared, "returned": returned, "written": written, "serialised_length": want}));
+                }
+            }
+            Ok(Err(e)) => ctx.notes.push(format!("entry-part case failed: {e}")),
+            Err(p) => ctx.violation("C07", "add_entry_part panicked", json!({"panic": p})),
+        }
+        ctx.case_free();
+    }
     let n = if ctx.thorough { 6000 } else { 600 };
     for i in 0..n {
         let ty: [u8; 4] = match rng.gen_range(0..3) {
